@@ -92,12 +92,14 @@ func RunProxy(c *Ctx) error {
 		da   coreda.DA
 	}{{"direct", direct}, {"proxy", &cl.DA}}
 
-	faults := []string{"none", "timeout", "mempool", "toobig", "err", "cancel", "acklost"}
+	faults := []string{"none", "timeout", "mempool", "toobig", "seqnum", "deadline", "err", "cancel", "acklost"}
 	seq := 0
 	for n := 0; n <= 4; n++ {
 		for fit := 0; fit <= n; fit++ {
 			for _, fault := range faults {
-				for variant := 0; variant < 2; variant++ {
+				for variant := 0; variant < 4; variant++ {
+					// variants also vary how the backing DA dresses its error value (bare / context in front / detail behind / both)
+					da.ErrWrap = []string{"", "back", "front", "both"}[variant]
 					// n blobs of which exactly the first `fit` fit the limit (variant: the blob after the prefix
 					// overflows the sum / is itself larger than the limit when fit = 0)
 					var blobs [][]byte
@@ -109,7 +111,7 @@ func RunProxy(c *Ctx) error {
 						case i < fit:
 							b = make([]byte, limit/(n+1))
 						case i == fit && fit == 0:
-							b = make([]byte, limit+1+variant) // a single blob over the limit
+							b = make([]byte, limit+1+variant%2) // a single blob over the limit
 						case i == fit:
 							b = make([]byte, limit-size+1) // overflows the sum
 						default:
@@ -139,6 +141,7 @@ func RunProxy(c *Ctx) error {
 			}
 		}
 	}
+	da.ErrWrap = ""
 	// retrieval: populated, empty and future heights, listing / chunk failures
 	stored := map[uint64][][]byte{}
 	for h := uint64(1050); h < 1054; h++ {
